@@ -49,6 +49,9 @@ def c10(tier, seed):
             out.append({'line': setup + './pargs %s' % word, 'files': {'pargs': PARGS}, 'expect_stdout': _argv([val]), 'area': 'expand_env:unquoted'})
     out.append({'line': 'sh -c "exit 7"; ./pargs "$?" $?', 'files': {'pargs': PARGS}, 'expect_stdout': _argv(['7', '7']), 'area': 'expand_env:status'})
     out.append({'line': './pargs "a$?b"', 'files': {'pargs': PARGS}, 'expect_stdout': _argv(['a0b']), 'area': 'expand_env:status'})
+    # a reference next to, and between, command substitutions
+    out.append({'line': 'A=val; ./pargs $(echo x)$A$(echo y) "$(echo x)${A}$(echo y)" $A$(echo z) $(echo w)$A; V=$(echo p)$A$(echo q); ./pargs "$V"', 'files': {'pargs': PARGS},
+                'expect_stdout': _argv(['xvaly', 'xvaly', 'valz', 'wval']) + _argv(['pvalq']), 'area': 'expand_env:reference-between-two-substitutions'})
     # a name ends at the first character that is not an ASCII letter, digit or underscore -- also when that character is a letter of another script
     out.append({'line': 'A=val; ./pargs "$Aé" "x$Aßy${A}z" $A名', 'files': {'pargs': PARGS}, 'expect_stdout': _argv(['valé', 'xvalßyvalz', 'val名']), 'area': 'expand_env:name-ends-at-non-ascii'})
     # the word list of a `for` in a script: arguments first, then variables -- an inserted value is not searched for positional parameters
